@@ -273,6 +273,26 @@ fn dump_const<'tcx>(tcx: TyCtxt<'tcx>, did: DefId) -> Option<J> {
                 if let Some(b) = v.try_get_slice_bytes_for_diagnostics(tcx) {
                     m.insert("bytes".into(), J::A(b.iter().map(|x| J::I(*x as i64)).collect()));
                 }
+            } else if let (mir::ConstValue::Scalar(rustc_middle::mir::interpret::Scalar::Ptr(ptr, _)), ty::Ref(_, inner, _)) =
+                (v, ty.kind())
+            {
+                // `&[u8; N]` constants such as MAGIC
+                if let ty::Array(elem, len) = inner.kind() {
+                    if *elem == tcx.types.u8 {
+                        if let Some(n) = len.try_to_target_usize(tcx) {
+                            let (prov, off) = ptr.into_raw_parts();
+                            if let rustc_middle::mir::interpret::GlobalAlloc::Memory(alloc) =
+                                tcx.global_alloc(prov.alloc_id())
+                            {
+                                let a = alloc.inner();
+                                let start = off.bytes_usize();
+                                let bytes =
+                                    a.inspect_with_uninit_and_ptr_outside_interpreter(start..start + n as usize);
+                                m.insert("bytes".into(), J::A(bytes.iter().map(|x| J::I(*x as i64)).collect()));
+                            }
+                        }
+                    }
+                }
             } else if let mir::ConstValue::Indirect { alloc_id, offset } = v {
                 // arrays like [u8; 6]
                 if let ty::Array(elem, _) = ty.kind() {
